@@ -1699,6 +1699,23 @@ def install_models(I):
     M["core::str::str::chars"] = str_chars
     M["core::str::<impl str>::chars"] = str_chars
 
+    def checked_shift(op):
+        def m(I, a, f):
+            x, n = a[0], a[1]
+            if isinstance(x, int) and isinstance(n, int):
+                bits = 64
+                for ty_, b_ in (("u8", 8), ("u16", 16), ("u32", 32), ("u64", 64), ("usize", 64)):
+                    if ("::%s::" % ty_) in f.id:
+                        bits = b_
+                if n >= bits:
+                    return none()
+                return some((x >> n) if op == "shr" else (x << n) % (1 << bits))
+            raise Unanalysable("checked_%s of %r by %r" % (op, x, n))
+        return m
+    for ty_ in ("u8", "u16", "u32", "u64", "usize"):
+        M["core::num::%s::checked_shr" % ty_] = checked_shift("shr")
+        M["core::num::%s::checked_shl" % ty_] = checked_shift("shl")
+
     # ---- BTreeMap with concrete keys: items = [[key, value], ...] kept sorted ------------------------------------------------
     def map_key(k):
         k = deref(k)
